@@ -738,17 +738,39 @@ def rule_position_loops(ctx):
                 base, bound = m1.group(1), m1.group(2)
             elif m2:
                 base, bound = m2.group(1), m2.group(2)
-            if base is None:
-                raise AnalysisError('position loop test `%s` in %s not recognised' % (txt, f.short))
             if cfg is None:
                 cfg = ctx.cfg(f)
                 rd = reaching_defs(cfg, f.params())
             head = cfg.node_of[lp]
+            extra_names = ()
+            m3 = re.fullmatch(r'(?:length == -1 or )?substrate\.tell\(\) < (\w+)', txt)
+            if base is None and m3:
+                # the end position computed once before the loop: `end = start + length`
+                endv = m3.group(1)
+                eds = rd[head].get(endv, set())
+                vals = [d.ast.value for d in eds if d.kind == 'stmt' and isinstance(d.ast, ast.Assign) and d.loop is not head]
+                if eds and len(vals) == len(eds) and all(isinstance(v, ast.BinOp) and isinstance(v.op, ast.Add) and
+                                                        sorted([norm(v.left), norm(v.right)]) == ['length', 'substrate.tell()'] for v in vals):
+                    # `end = substrate.tell() + length`: the start position is taken in the same expression
+                    inside_ = [x for x in ast.walk(lp) if isinstance(x, (ast.Assign, ast.AugAssign)) and any(
+                        isinstance(y, ast.Name) and y.id in (endv, 'length') for y in ast.walk(x.targets[0] if isinstance(x, ast.Assign) else x.target))]
+                    ctx.ob('A2.pos', f, 'while %s' % txt, not inside_,
+                           'end position `%s` = position before the loop + announced length; re-assignments inside the loop: %d' % (endv, len(inside_)), node=lp)
+                    continue
+                if eds and len(vals) == len(eds) and all(isinstance(v, ast.BinOp) and isinstance(v.op, ast.Add) and
+                                                        isinstance(v.left, ast.Name) and isinstance(v.right, ast.Name) for v in vals):
+                    pairs = set((v.left.id, v.right.id) for v in vals)
+                    if len(pairs) == 1:
+                        a_, b_ = pairs.pop()
+                        base, bound = (b_, a_) if a_ == 'length' else (a_, b_)
+                        extra_names = (endv,)
+            if base is None:
+                raise AnalysisError('position loop test `%s` in %s not recognised' % (txt, f.short))
             defs = rd[head].get(base, set())
             ok = bool(defs) and all(d.kind == 'stmt' and isinstance(d.ast, ast.Assign) and norm(d.ast.value) == 'substrate.tell()' and
                                     d.loop is not head for d in defs)
             inside = [x for x in ast.walk(lp) if isinstance(x, (ast.Assign, ast.AugAssign)) and any(
-                isinstance(y, ast.Name) and y.id in (base, bound) for y in ast.walk(x.targets[0] if isinstance(x, ast.Assign) else x.target))]
+                isinstance(y, ast.Name) and y.id in (base, bound) + tuple(extra_names) for y in ast.walk(x.targets[0] if isinstance(x, ast.Assign) else x.target))]
             ok = ok and not inside and bound == 'length'
             ctx.ob('A2.pos', f, 'while %s' % txt, ok,
                    'the loop bound must be the announced `length` measured from `%s = substrate.tell()` taken before the loop and '
